@@ -358,6 +358,39 @@ def disk_records(tag, j, g, rng, tmpdir):
                 return xgi.read_incidence_matrix(p(f"im.{dname}"), **kw)
             gg = MapGamma(g, {i: n for i, n in enumerate(src["nodes"])}, {i: e for i, e in enumerate(src["edges"])})
             add(f"incidence_matrix({dname})", "incidences", im, gg=gg)
+    # node and edge labels with the same text but different casts (int nodes, string edge ids "0", "1", ...)
+    if has_inc and g.node_kind == "ints":
+        K = xgi.Hypergraph()
+        K.add_nodes_from(H.nodes)
+        emap = {}
+        for k, e in enumerate(H.edges):
+            K.add_edge(list(H._edge[e]), idx=str(k))
+            emap[str(k)] = src["edges"][k]
+        ksrc, _ = hg.proj(K, MapGamma(g, edge_map=emap))
+        for dname, delim in (("default", None), ("comma", ","), ("bar", "|")):
+            kw = {} if delim is None else {"delimiter": delim}
+
+            def bel2(dname=dname, kw=kw):
+                xgi.write_bipartite_edgelist(K, p(f"bel2.{dname}"), **kw)
+                return xgi.read_bipartite_edgelist(p(f"bel2.{dname}"), nodetype=int, edgetype=str, **kw)
+            add(f"bipartite_edgelist({dname},nodetype=int,edgetype=str)", "incidences", bel2, gg=MapGamma(g, edge_map=emap),
+                source=ksrc)
+    # labels containing characters that only some line splitters treat as line ends (explicit delimiters only)
+    if g.node_kind == "str":
+        gx = Gamma("exotic", "int")
+        X = obscore.realise(j, gx, rng, shuffle=False)
+        xsrc, xa = hg.proj(X, gx)
+        xpos = MapGamma(gx, edge_map={k: e for k, e in enumerate(xsrc["edges"])})
+        for dname, delim in (("comma", ","), ("bar", "|")):
+            def elx(dname=dname, delim=delim):
+                xgi.write_edgelist(X, p(f"elx.{dname}"), delimiter=delim)
+                return xgi.read_edgelist(p(f"elx.{dname}"), delimiter=delim)
+            add(f"edgelist({dname},exotic labels)", "edge_order", elx, gg=xpos, source=xsrc)
+            if any(xsrc["e2n"]):
+                def belx(dname=dname, delim=delim):
+                    xgi.write_bipartite_edgelist(X, p(f"belx.{dname}"), delimiter=delim)
+                    return xgi.read_bipartite_edgelist(p(f"belx.{dname}"), delimiter=delim, edgetype=int)
+                add(f"bipartite_edgelist({dname},exotic labels)", "incidences", belx, gg=gx, source=xsrc)
     return out
 
 
